@@ -69,6 +69,9 @@ def shapes(tier, seed):
     out.append({"kind": "compose", "rotation": "frames", "n_t": 2, "n_o": 2, "n_b": 3, "frames": 1, "include_outliers": True})
     if tier == "thorough":
         out.append({"kind": "compose", "rotation": "frames", "n_t": 2, "n_o": 1, "n_b": 3, "frames": 3, "include_outliers": False})
+    # the nearest grid rotation for a SYMBOLIC orientation of the molecule (grid: concrete rotations)
+    for gi in ((0, 1) if tier == "quick" else (0, 1, 2, 3)):
+        out.append({"kind": "nearest", "grid": gi})
     return out
 
 
@@ -119,7 +122,7 @@ def run_shape(shape):
         return run_tools(shape)
     if shape["kind"] == "pipeline":
         return run_pipeline(shape)
-    return {"radial": run_radial, "direction": run_direction, "compose": run_compose}[shape["kind"]](shape)
+    return {"radial": run_radial, "direction": run_direction, "compose": run_compose, "nearest": run_nearest}[shape["kind"]](shape)
 
 
 def run_radial(shape):
@@ -768,6 +771,141 @@ def run_compose(shape):
     return acc.result(eng.stats, prover.stats)
 
 
+
+# ------------------------------------------------------------------------------------------ nearest grid rotation, symbolic orientation
+# rotation grids (scalar-last unit quaternions, all in the canonical half the package's grids live in)
+_S = math.sqrt(0.5)
+NEAREST_GRIDS = [
+    [[0.0, 0.0, 0.0, 1.0], [1.0, 0.0, 0.0, 0.0], [0.0, 1.0, 0.0, 0.0]],                                   # identity, half turns about x and y
+    [[0.0, 0.0, 0.0, 1.0], [0.6, 0.0, 0.0, 0.8], [0.0, 0.6, 0.0, 0.8], [0.0, 0.0, 1.0, 0.0]],             # identity, 74-degree turns about x, y, half turn about z
+    [[0.5, 0.5, 0.5, 0.5], [0.5, -0.5, 0.5, 0.5], [0.0, 0.6, 0.0, 0.8]],
+    [[0.0, 0.0, 0.0, 1.0], [0.6, 0.0, 0.0, 0.8], [0.0, 0.0, 0.6, 0.8], [0.0, 0.6, 0.8, 0.0], [1.0, 0.0, 0.0, 0.0]],
+]
+
+
+def _unit_matrix(p):
+    from symx.models import rotation_matrix_terms_unit
+    return rotation_matrix_terms_unit(p)
+
+
+def _nearest_tool(T, at, P_rows_are_axes):
+    """one frame, centre of mass inside the grid; molecule 2's principal axes in that frame are the rows of the given matrix"""
+    traj = FakeTraj(1)
+    at.stop = 1
+    at.trajectory_universe = FakeUniverse(traj, FrameAG(traj, [np.array([0.0, 0.0, 1.2])], [P_rows_are_axes]))
+    at.reference_universe = RefAxes()
+    at._determine_positive_directions = lambda universe: np.array([1.0, 1.0, 1.0])
+    return at
+
+
+class FrameAGSym(FrameAG):
+    def principal_axes(self, **k):
+        return self.axes[self.traj.frame].copy()
+
+
+def run_nearest(shape):
+    """'b is the grid rotation with the smallest rotation angle to the molecule's actual rotation': the REAL _get_quaternion_assignments /
+    _get_rotation_matrices / _complex_mdanalysis_func on ONE frame in which the molecule's rotation relative to its reference is an
+    arbitrary SYMBOLIC unit quaternion p (its rotation matrix M(p) enters through the principal-axes stand-in); the rotation grid is
+    concrete.  scipy's Rotation is the model of symx.models (as_matrix, from_matrix, magnitude = arccos((tr - 1)/2) as a monotone
+    uninterpreted function, as_quat with scipy's sign rule).  Obligation: the returned index b maximises trace(R_b M(p)^T), i.e.
+    minimises the angle of the relative rotation -- for every p."""
+    import molgri.molecules.transitions as T
+    import molgri.space.utils as U
+    from symx.models import FRot
+    from symx.core import sym_float
+    Q = NEAREST_GRIDS[shape["grid"]]
+    n_b = len(Q)
+    p = [z3.Real(f"p{k}") for k in range(4)]
+    eng = Engine()
+    eng.decide_timeout_ms = 4000
+    prover = Prover(timeout_ms=20000, budget_s=400)
+    acc = Acc(shape)
+    eng.assume_global(z3.Sum([x * x for x in p]) == 1, *[z3.And(x >= -1, x <= 1) for x in p])
+    proxy = NPProxy()
+    Mp = _unit_matrix(p)                                   # z3 terms
+    # trace(R_i M(p)^T) = sum_jk R_i[j][k] * M(p)[j][k]; R_i as the model of Rotation(q).as_matrix() gives it (the same floats the code sees)
+    Rb = np.asarray(FRot(np.array(Q, dtype=float)).as_matrix(), dtype=object)
+    tr = []
+    for i in range(n_b):
+        acc_ = 0
+        for j in range(3):
+            for k in range(3):
+                acc_ = acc_ + Rb[i][j][k] * SR(Mp[j][k])
+        tr.append(z(acc_))
+
+    def body():
+        with bound(T, np=proxy, print=noprint, cdist=fcdist, AnalysisFromFunction=FakeAnalysis, pd=PdStub, Pool=SerialPool, Rotation=FRot, float=sym_float), \
+                bound(U, np=proxy):
+            at = make_tool(T, t_array=np.array([1.0, 2.0]), o_array=np.array([[0.0, 0.0, 1.0]]), b_array=np.array(Q, dtype=float), include_outliers=True)
+            axes = sarr([[SR(Mp[k][j]) for k in range(3)] for j in range(3)])        # rows = principal axes = columns of M(p)
+            traj = FakeTraj(1)
+            at.stop = 1
+            at.trajectory_universe = FakeUniverse(traj, FrameAGSym(traj, [np.array([0.0, 0.0, 1.2])], [axes]))
+            at.reference_universe = RefAxes()
+            at._determine_positive_directions = lambda universe: np.array([1.0, 1.0, 1.0])
+            return at._get_quaternion_assignments()
+
+    for path in eng.explore(body):
+        acc.begin(prover, path)
+        if path.kind == "exc":
+            acc.structural("no_exception", False, detail=repr(path.value) + (path.tb or "")[-700:], cex={"kind": "exception", "exc": type(path.value).__name__, "model": _path_model(path)})
+            continue
+        if acc.reachable is not True:
+            acc.reach(prover.satisfiable(path.premises))
+        res = np.asarray(path.value, dtype=object).reshape(-1)
+        ok = len(res) == 1 and not isinstance(res[0], SR) and float(res[0]) == int(res[0]) and 0 <= int(res[0]) < n_b
+        acc.structural("one_rotation_index_in_range", ok, detail=repr(res), cex=None if ok else {"model": _path_model(path)})
+        if not ok:
+            continue
+        b = int(res[0])
+        claims = [(f"no_grid_rotation_is_nearer[{i}]", tr[b] >= tr[i]) for i in range(n_b) if i != b]
+        acc.add(prover.prove_all(path.premises, claims), make_cex=lambda r_: {"model": r_.model} if getattr(r_, "model", None) else {})
+    return acc.result(eng.stats, prover.stats)
+
+
+def replay_nearest(cex):
+    """the same single frame on the real scipy / numpy: orientations from the solver's model first, then a spread of rotations"""
+    import contextlib, io
+    from scipy.spatial.transform import Rotation as R_
+    import molgri.molecules.transitions as T
+    Q = np.array(NEAREST_GRIDS[cex["shape"]["grid"]], dtype=float)
+    model = cex.get("model", {}) or {}
+    rng = np.random.default_rng(11)
+    cands = []
+    pm = [fval(model, f"p{k}", None) for k in range(4)]
+    if all(x is not None for x in pm) and np.linalg.norm(pm) > 1e-9:
+        cands.append(np.array(pm, dtype=float) / np.linalg.norm(pm))
+    for _ in range(300):
+        v = rng.normal(size=4)
+        cands.append(v / np.linalg.norm(v))
+    for q in Q:                       # near the grid rotations and their other sign
+        for sg in (1.0, -1.0):
+            v = sg * q + rng.normal(scale=0.05, size=4)
+            cands.append(v / np.linalg.norm(v))
+    bad = []
+    old = (T.AnalysisFromFunction, T.Pool)
+    T.AnalysisFromFunction, T.Pool = FakeAnalysis, SerialPool
+    try:
+        for pq in cands:
+            M = R_.from_quat(pq).as_matrix()
+            at = make_tool(T, t_array=np.array([1.0, 2.0]), o_array=np.array([[0.0, 0.0, 1.0]]), b_array=Q.copy(), include_outliers=True, real=True)
+            _nearest_tool(T, at, M.T.copy())
+            try:
+                with contextlib.redirect_stdout(io.StringIO()):
+                    got = np.asarray(at._get_quaternion_assignments()).reshape(-1)
+            except Exception as e:  # noqa: BLE001
+                return {"reproduced": True, "detail": f"orientation {pq.tolist()}: raised {e!r}"}
+            ang = np.array([R_.from_matrix(R_.from_quat(q).as_matrix() @ M.T).magnitude() for q in Q])
+            if len(got) != 1 or not (0 <= int(got[0]) < len(Q)):
+                bad.append(f"orientation {pq.tolist()}: result {got.tolist()}")
+            elif ang[int(got[0])] > ang.min() + 1e-6:
+                bad.append(f"orientation (x,y,z,w) = {np.round(pq, 6).tolist()}: assigned grid rotation {int(got[0])} at angle {ang[int(got[0])]:.4f} rad, "
+                           f"grid rotation {int(ang.argmin())} is at {ang.min():.4f} rad")
+    finally:
+        T.AnalysisFromFunction, T.Pool = old
+    return {"reproduced": bool(bad), "detail": str(bad[:3])}
+
 # ------------------------------------------------------------------------------------------ replay on the real code
 class RealAG:
     def __init__(self, com):
@@ -833,6 +971,8 @@ def replay(cex):
         return replay_tools(cex)
     if s["kind"] == "pipeline":
         return replay_pipeline(cex)
+    if s["kind"] == "nearest":
+        return replay_nearest(cex)
     model = cex.get("model", {}) or {}
     rng = np.random.default_rng(2)
     bad = []
